@@ -28,6 +28,7 @@ type Thread struct {
 	vc        []int // vector clock (race detection)
 	signaled  bool
 	pos       token.Pos
+	curFn     *ssa.Function
 	visible   bool // the sync operation being executed was called from instrumentable repo code
 	quiescing bool // blocked in vrtQuiesce (waiting for everybody else to block)
 	noPoints  int  // >0: inside a composite primitive (Cond.Wait): no scheduling points
@@ -209,7 +210,7 @@ func (th *Thread) yield(what string) {
 	if !th.visible || th.noPoints > 0 {
 		return
 	}
-	if e.w.cfg.Sched == "explore" && len(e.threads) > 1 && s.preempt < e.w.cfg.Preempt {
+	if (e.w.cfg.Sched == "explore" || e.w.cfg.Sched == "preempt") && len(e.threads) > 1 && s.preempt < e.w.cfg.Preempt {
 		var others []*Thread
 		for _, t := range s.runnable() {
 			if t != th {
